@@ -26,6 +26,16 @@ def ackq_nontrivial(op, model_out):
     return not (model_out.startswith('rel [] ') or model_out == 'reset')
 
 
+def by_core(table, default=None):
+    """dispatch a per-line rule on the core name (first word of the op line)"""
+    def f(op, a, b=None):
+        g = table.get(op.split()[0], default)
+        if g is None:
+            return True
+        return g(op, a, b) if b is not None else g(op, a)
+    return f
+
+
 class Prop:
     def __init__(self, pid, module, cores, runs, tie_eq=eq_lines, oracle=eq_lines, nontrivial=None,
                  spec_total=True, level='proof', assumptions=(), trusted=(), classes=None, extra_checks=()):
